@@ -9,6 +9,8 @@ from gen import lenp_kinds, constants
 ID = "C13"
 DRIVER = "drv_streams"
 HARNESS = "h_streams"
+QUICK_LEVEL = "thorough"      # the larger case set costs only seconds
+THOROUGH_SEEDS = 8
 GEN = [lenp_kinds.gen, constants.gen]
 TIE = ['Ufw.Tie.Misc', 'Ufw.Tie.Varint']
 GEN_OBLIGATIONS = ["Ufw.Props.C13.kind_table_spec (sizes, maxima and octet orders of the regenerated KIND table)"]
